@@ -55,7 +55,7 @@ func isSubseq(s, v []int, eq func(x, y int) bool) bool {
 }
 
 func checkLCS(p pair) *mc.Failure {
-	return mc.Guard(func() *mc.Failure {
+	return mc.GuardT("lcs", p, func() *mc.Failure {
 		a := append([]int(nil), p.A...)
 		b := append([]int(nil), p.B...)
 		eq := func(x, y int) bool { return x == y }
@@ -124,7 +124,7 @@ func longest(v []int, ok func(p, n int) bool) int {
 }
 
 func checkSeq(c seqCase) *mc.Failure {
-	return mc.Guard(func() *mc.Failure {
+	return mc.GuardT("lis-lnds", c, func() *mc.Failure {
 		cmp := cmpFor(c.Cmp)
 		eq := func(x, y int) bool { return x == y }
 		for _, strict := range []bool{true, false} {
